@@ -285,3 +285,23 @@ def canon(o, depth=0):
 def canon_hash(o):
     import hashlib
     return hashlib.sha1(repr(canon(o)).encode()).hexdigest()[:20]
+
+
+def hand_out(res):
+    """Deep copy of a result for the caller; every array of the ORIGINAL result is
+    then edited in place (as a caller may do).  A correct library never sees those
+    arrays again; one that keeps a reference (memo, shared buffer, cached identity)
+    is corrupted for later calls, which the monitors judge as usual."""
+    import copy
+    try:
+        out = copy.deepcopy(res)
+    except Exception:
+        return res
+    for _, a in walk_arrays(res):
+        if a.flags.writeable and a.size and a.dtype.kind in 'fiu':
+            try:
+                np.multiply(a, 2, out=a, casting='unsafe')
+                a.flat[0] += 1
+            except Exception:
+                pass
+    return out
